@@ -135,6 +135,8 @@ func (h *hist) race(rc *raceCfg, pol *HandPolicy) string {
 				// wrong afterwards in such an execution is one finding (see known_findings.json, C08)
 				h.taint = "after-bystander-left-while-hand-settles"
 			}
+		case "noop":
+			// no second call: the window only lets the hand's own updater goroutine interleave with the answer
 		default:
 			if strings.HasPrefix(kind, "blind-") || kind == "close" || kind == "release" {
 				// table-level call issued while the hand ends: h.apply performs it and tells the monitors. A break
@@ -153,6 +155,17 @@ func (h *hist) race(rc *raceCfg, pol *HandPolicy) string {
 	env.Join(tA, tB)
 	env.WindowEnd()
 	env.Settle()
+	if kind == "noop" && a == "fold" {
+		// C14: the fold round recorded for the folder is the round in which the fold was accepted, also when that
+		// fold closes the betting round and the hand's updater goroutine moves on at once
+		if pl := td.player(who); pl != nil && td.table().State.GameState != nil {
+			g := pl.GameStatistics
+			diagNotes[fmt.Sprintf("race-fold: folded in %s, recorded fold=%v round %q", p.GS.Status.Round, g.IsFold, g.FoldRound)]++
+			if !g.IsFold || g.FoldRound != p.GS.Status.Round {
+				h.raceViol = &Viol{Key: "fold-flag@round-closing-fold", Detail: fmt.Sprintf("%s folded in round %q (the fold closed the betting round, the hand went on); statistics: fold flag %v, fold round %q", who, p.GS.Status.Round, g.IsFold, g.FoldRound)}
+			}
+		}
+	}
 	if kind == "extend" {
 		// C15: the answer moved the turn to the next player (same betting round). Whatever the order of the two
 		// calls, that player's published deadline is request time + action time, plus the 15 s if - and only if -
@@ -174,7 +187,7 @@ func (h *hist) race(rc *raceCfg, pol *HandPolicy) string {
 	return fmt.Sprintf("race[%s(%s) || %s]", a, who, rc.op)
 }
 
-var lineByName = map[string]Line{"foldout": lineFoldOut, "checkdown": lineCheckDown, "allin": lineAllIn, "explore": lineExplore}
+var lineByName = map[string]Line{"foldout": lineFoldOut, "checkdown": lineCheckDown, "allin": lineAllIn, "explore": lineExplore, "raise-call-fold": lineRaiseCallFold}
 
 func (h *hist) freeSeats() []int {
 	t := h.td.table()
